@@ -176,11 +176,15 @@ def gen_profile(rng, eng, P):
             v = vcr * rng.uniform(0.6, 0.95)
         if rng.random() < 0.05:
             cruise = not cruise
+        if eng != 'Piston' and rng.random() < 0.06:
+            # above the altitude where the BADA maximum-thrust polynomial changes sign: thrust limit, descent thrust and
+            # therefore fuel flow are NEGATIVE there (specific ground range < 0: nothing is burnt)
+            alt = min(24500.0, P['c_tc2'] * FT * (rng.uniform(1.15, 1.35) if eng == 'Jet' else rng.uniform(1.08, 1.3)))
         if rng.random() < 0.12:
             # acceleration independent of the sign of the climb rate: a level or climbing point that decelerates harder than
             # drag / mass (negative total-energy thrust without descending), an accelerating descent
             acc = rng.choice([-1.0, -0.7, -1.5, 0.6, 0.9]) if ph != 'de' else rng.choice([0.5, 0.9, -1.2])
-        T = isa_T(alt) + rng.choice([0.0, 0.0, rng.uniform(-15.0, 25.0)])
+        T = isa_T(alt) + rng.choice([0.0, 0.0, rng.uniform(-15.0, 25.0)])      # (T from the final altitude)
         gs = v + rng.uniform(-0.2, 0.2) * v
         pts.append({'T': T, 'alt': alt, 'v': v, 'rocd': rocd, 'acc': acc, 'cruise': cruise, 'gs': gs})
     seg = {'Jet': 60000.0, 'Turboprop': 30000.0, 'Piston': 12000.0}[eng] * rng.uniform(0.2, 2.0) * (12.0 / max(n, 4))
@@ -217,6 +221,26 @@ def gen_case(rng, cid):
                  mpl=P['max_payload'], lf=lf,
                  reserve=rng.uniform(0.03, 0.1) if drv == 'fd_fraction' else rng.uniform(0.01, 0.06) * mref)
     return c
+
+
+def gen_param_twin(rng, c, cid):
+    """the same flight again on the SAME model / parameter object after some coefficients were changed on that object,
+    by attribute assignment or by assign_parameters_fromdict: the result must be that of a fresh object with the new values"""
+    t = json.loads(json.dumps(c))
+    t['id'] = cid
+    t.pop('first_flight', None)
+    names = rng.sample(['c_f1', 'c_tc1', 'c_tdes_high', 'c_tdes_low', 'c_fcr', 'c_d0cr', 'c_tc2', 'c_f2'], rng.choice([1, 2, 3]))
+    vals = {}
+    for k_ in names:
+        if t['params'].get(k_):
+            vals[k_] = t['params'][k_] * rng.choice([0.7, 0.85, 1.2, 1.4])
+    if 'c_fcr' in vals:
+        vals['c_fcr'] = min(vals['c_fcr'], 1.0)
+    t['params'].update(vals)
+    t['mutate_params'] = {'how': rng.choice(['attr', 'attr', 'fromdict']), 'values': vals}
+    t['twin_of'] = c['id']
+    t['first_flight'] = json.loads(json.dumps(c))
+    return t
 
 
 def gen_twin(rng, c, cid):
@@ -305,6 +329,13 @@ def impl_case(c, own):
         key = (c.get('model_key'), own)
         if c.get('model_key') is not None and key in _models:
             model = _models[key]
+            mp = c.get('mutate_params')
+            if mp:        # the SAME parameter object is changed between two evaluations, as a calibration loop would do
+                if mp['how'] == 'attr':
+                    for k_, v_ in mp['values'].items():
+                        setattr(model.aircraft_parameters, k_, v_)
+                else:
+                    model.aircraft_parameters.assign_parameters_fromdict(dict(mp['values']))
         else:
             model = make_model(c['params'], own)
             if c.get('model_key') is not None:
@@ -519,7 +550,8 @@ def process(chk: Check, cases, flags):
         chk.count(f'case:{c["engine"]}/{c["driver"]}/n_iter={c["n_iter"]}/{"scalar" if c["scalar_dx"] else "array"}-dx')
         chk.count('cruise-flags-as:' + c.get('flag_kind', 'bool'))
         if 'twin_of' in c:
-            chk.count('second-flight-on-same-model-object')
+            chk.count('second-flight-on-same-model-object' + ('/parameters-changed-by-' + c['mutate_params']['how']
+                                                              if c.get('mutate_params') else ''))
         if 'error' in io:
             chk.fail(f'{c["driver"]} raised {io["error"][0]}: {io["error"][1]}', {'case': c, 'impl': io, 'with': used})
             continue
@@ -582,11 +614,16 @@ def run(chk: Check):
     for i in range(chk.n(150, 1500)):
         c = gen_case(chk.rng, 1000 + 2 * i)
         cases.append(c)
-        if chk.rng.random() < 0.3:
+        r_ = chk.rng.random()
+        if r_ < 0.3:
             # one model object, two flights over the same altitude profile under different conditions
             c['model_key'] = f'm{c["id"]}'
             t = gen_twin(chk.rng, c, 1001 + 2 * i)
             cases.append(t)
+        elif r_ < 0.5:
+            # one model / parameter object, coefficients changed on it between two evaluations
+            c['model_key'] = f'm{c["id"]}'
+            cases.append(gen_param_twin(chk.rng, c, 1001 + 2 * i))
     process(chk, cases, flags)
 
 
